@@ -4,6 +4,7 @@ from ..r_protocol import run_protocol
 from ..r_rings import rule_one_graph, rule_ring_marks
 from ..r_hygiene import rule_hygiene as _rule_hygiene
 from ..r_rings import rule_hybridization_table as _rule_hyb
+from ..r_rings import rule_simple_cycle_guard as _rule_simple
 
 LEVEL = 'other'
 
@@ -16,3 +17,4 @@ def run(ck, repo):
     run_protocol(ck, repo, 'C06.D2-refreshed', only_dims={'LABELS', 'KEEP'})
     _rule_hygiene(ck, repo, 'C06.H-dataflow-hygiene', 'C06')
     _rule_hyb(ck, repo, 'C06.D4-hybridization')
+    _rule_simple(ck, repo, 'C06.D5-simple-cycles')
